@@ -931,6 +931,40 @@ def run_controls(res=None):
         out.append((name, ok, "" if ok else f"expected {expected}, evaluator gives {got}"))
         if res is not None:
             res.control("AE:" + name, ok, out[-1][2])
+    # evaluator housekeeping: a generator left suspended by a finished run gives its thread back at the next run, and none of its
+    # interpreted code (finally blocks, with-exits) runs while that happens
+    import threading
+    w.reset_run(())
+    m = w.load_text("verif_control_abandon", """
+LOG = []
+class CM:
+    def __enter__(self):
+        return self
+    def __exit__(self, *a):
+        LOG.append("exit")
+def inner():
+    try:
+        yield 1
+        yield 2
+    finally:
+        LOG.append("inner-finally")
+def gen():
+    with CM():
+        try:
+            yield from inner()
+        finally:
+            LOG.append("finally")
+gs = [gen() for _ in range(3)]
+firsts = [next(g) for g in gs]
+""")
+    log = m.globals["LOG"]
+    before = threading.active_count()
+    w.reset_run(())
+    name, ok = "suspended-generators-reclaimed-without-running-their-code", before >= 7 and threading.active_count() == 1 and not w.live_gens and not log.items
+    w.mods.pop("verif_control_abandon", None)
+    out.append((name, ok, "" if ok else f"threads before {before}, after {threading.active_count()}, live {len(w.live_gens)}, log {to_py(log)}"))
+    if res is not None:
+        res.control("AE:" + name, ok, out[-1][2])
     return out
 
 
